@@ -1,0 +1,41 @@
+//go:build verif
+// +build verif
+
+package ige
+
+// Verification hooks (build tag verif): read-only access to package-internal pieces for the
+// conformance harness in /verif. Nothing here is compiled without the tag.
+
+import (
+	"crypto/cipher"
+	"math/big"
+)
+
+// VerifIGEWithBlock runs the package's IGE block loop with a caller-supplied block cipher and
+// caller-owned buffers.
+func VerifIGEWithBlock(block cipher.Block, iv, in, out []byte, decrypt bool) error {
+	c, err := NewCipher(make([]byte, 32), iv)
+	if err != nil {
+		return err
+	}
+	c.block = block
+	if decrypt {
+		return c.doAES256IGEdecrypt(in, out)
+	}
+	return c.doAES256IGEencrypt(in, out)
+}
+
+func VerifIGE(data, out, key, iv []byte, decrypt bool) error {
+	if decrypt {
+		return doAES256IGEdecrypt(data, out, key, iv)
+	}
+	return doAES256IGEencrypt(data, out, key, iv)
+}
+
+func VerifTempKeys(nonceSecond, nonceServer *big.Int) (key, iv []byte) {
+	return generateTempKeys(nonceSecond, nonceServer)
+}
+
+func VerifAESIGE(msgKey, authKey []byte, decode bool) (key, iv []byte) {
+	return generateAESIGE(msgKey, authKey, decode)
+}
